@@ -227,9 +227,17 @@ class CommitGraph:
 
         # Read chunks
         # Offsets in TOC are absolute from start of file
+        f.seek(0, 2)
+        file_size = f.tell()
         for i in range(num_chunks):
             chunk_id, offset = toc_entries[i]
             next_offset = toc_entries[i + 1][1]
+            if not offset <= next_offset <= file_size:
+                # damaged table of contents: do not try to read (and
+                # allocate) a chunk of a bogus, possibly astronomical size
+                raise ValueError(
+                    f"Invalid chunk offsets in commit graph: {offset}..{next_offset}"
+                )
             chunk_size = next_offset - offset
 
             f.seek(offset)
